@@ -251,6 +251,8 @@ func (w *World) intrinsicFor(fn *ssa.Function) intrinsicFn {
 	if h == nil {
 		if x, ok := intrinsics[name]; ok {
 			h = x
+		} else if x, ok := cryptoIntrinsics[name]; ok {
+			h = x
 		}
 	}
 	if h == nil && fn.Pkg != nil && nopPackages[fn.Pkg.Pkg.Path()] {
@@ -391,7 +393,23 @@ func (in *Interp) hashUF(kind string, input []*Term, outBytes int) []*Term {
 		}
 	}
 	if in.concrete != nil {
-		panic(in.unsupported("hash in concrete mode"))
+		data := make([]byte, len(input))
+		for i, t := range input {
+			if !t.IsConst() {
+				panic(in.unsupported("symbolic hash input in concrete mode"))
+			}
+			data[i] = byte(t.Uint64())
+		}
+		d, ok := concreteDigest(kind, data, outBytes)
+		if !ok || len(d) < outBytes {
+			panic(in.unsupported("no concrete implementation of hash " + kind))
+		}
+		out := make([]*Term, outBytes)
+		for i := range out {
+			out[i] = ts.ConstU(8, uint64(d[i]))
+		}
+		in.hashApps[kind] = append(in.hashApps[kind], &hashApp{input: input, out: out})
+		return out
 	}
 	in.ufSeq++
 	out := make([]*Term, outBytes)
